@@ -95,6 +95,11 @@ def run(run, model, proof):
     thorough = run.tier == "thorough"
     run.rule = RULE
     import os
+    import scan_source
+    for w in scan_source.unexpected_stdout_writers(common.ROOT):
+        # (fail-closed source scan: the printed text is JSON only if nothing else writes to stdout while documents are decoded)
+        run.violation("scan:stdout-writer", "a decoder module writes to stdout where the published list has no such write: " + w,
+                      dict(kind="M", fn="scan", correspondence="harness/scan_source.PUBLISHED_STDOUT_WRITERS vs the source text", detail=w), no_input=True)
     cdir = os.path.join(common.VERIF, "corpus", "C06")
     for f in sorted(os.listdir(cdir)) if os.path.isdir(cdir) else []:
         r = json.load(open(os.path.join(cdir, f)))
